@@ -190,11 +190,22 @@ func Render(p *Prog, s *Style) string {
 
 	var renderItems func(items []Item, indent string)
 	renderItems = func(items []Item, indent string) {
-		for _, it := range items {
+		for idx := 0; idx < len(items); idx++ {
+			it := items[idx]
 			filler()
 			switch x := it.(type) {
 			case *Equ:
-				emit(trail(indent + s.name(x.Name) + s.gap() + s.kw("equ") + s.gap() + s.expr(x.E)))
+				names := s.name(x.Name)
+				for idx+1 < len(items) {
+					// several names in front of one EQU: every one of them is defined
+					nx, ok := items[idx+1].(*Equ)
+					if !ok || !nx.JoinPrev || fmt.Sprint(Tokens(nx.E)) != fmt.Sprint(Tokens(x.E)) {
+						break
+					}
+					names += s.gap() + s.name(nx.Name)
+					idx++
+				}
+				emit(trail(indent + names + s.gap() + s.kw("equ") + s.gap() + s.expr(x.E)))
 			case *Org:
 				emit(trail(indent + s.opt() + s.kw("org") + s.gap() + s.expr(x.E)))
 			case *For:
